@@ -1,6 +1,7 @@
 //! Shared generators.
 pub mod batch;
 pub mod prog;
+pub mod srccase;
 pub mod progen;
 pub mod vals;
 pub mod values;
